@@ -451,6 +451,132 @@ theorem any_schedule_placed (c : Cfg) (sched : List Nat) (hg : Good H c) (hp : P
     | some th => exact step_placed root H c.1 th hp (hg.wf i th hi) (hg.tmp i th hi)
 
 
+/-! ### one writer alone: re-running after a crash recovers (the C15 clause, as a theorem) -/
+
+/-- `n` steps of a writer that is alone on the store -/
+def solo : Nat → S × Thread → S × Thread
+  | 0, c => c
+  | n + 1, c => solo n (c.2.step root H c.1)
+
+theorem step_terminal_id (s : S) (th : Thread) (h : th.pc.terminal = true) : th.step root H s = (s, th) := by
+  unfold Thread.step
+  cases hpc : th.pc <;> rw [hpc] at h <;> simp [Pc.terminal] at h <;> rfl
+
+theorem measure_zero_terminal (th : Thread) (h : th.measure = 0) : th.pc.terminal = true := by
+  unfold Thread.measure at h
+  cases hpc : th.pc <;> rw [hpc] at h <;> simp only [] at h <;> first | rfl | omega
+
+theorem solo_succ (n : Nat) (s : S) (th : Thread) :
+    solo root H (n + 1) (s, th) = solo root H n ((th.step root H s).1, (th.step root H s).2) := rfl
+
+theorem solo_terminal : ∀ (n : Nat) (s : S) (th : Thread), th.measure ≤ n → (solo root H n (s, th)).2.pc.terminal = true := by
+  intro n
+  induction n with
+  | zero => intro s th h; exact measure_zero_terminal th (by omega)
+  | succ n ih =>
+    intro s th h
+    rw [solo_succ]
+    by_cases ht : th.pc.terminal = true
+    · rw [step_terminal_id root H s th ht]
+      apply ih s th
+      have : th.measure = 0 := by
+        unfold Thread.measure
+        cases hpc : th.pc <;> rw [hpc] at ht <;> simp [Pc.terminal] at ht <;> rfl
+      omega
+    · have ht' : th.pc.terminal = false := by cases h' : th.pc.terminal <;> simp_all
+      have := step_measure_lt root H s th ht'
+      exact ih _ _ (by omega)
+
+theorem solo_eq_runSched : ∀ (n : Nat) (s : S) (th : Thread),
+    runSched root H (s, [th]) (List.replicate n 0) = ((solo root H n (s, th)).1, [(solo root H n (s, th)).2]) := by
+  intro n
+  induction n with
+  | zero => intro s th; rfl
+  | succ n ih =>
+    intro s th
+    rw [solo_succ]
+    have : stepAt root H (s, [th]) 0 = ((th.step root H s).1, [(th.step root H s).2]) := by simp [stepAt]
+    simp only [List.replicate_succ, runSched, List.foldl_cons]
+    rw [this]
+    exact ih _ _
+
+/-- a writer that is alone is never refused: when it probes, the name is free -/
+def SoloOK (c : S × Thread) : Prop := c.2.pc.lost = false ∧ (c.2.pc = Pc.probe → c.1.objs.lookup c.2.oid = none)
+
+theorem step_soloOK (s : S) (th : Thread) (h : SoloOK (s, th)) : SoloOK (th.step root H s) := by
+  obtain ⟨hl, hp⟩ := h
+  simp only at hl hp
+  unfold Thread.step SoloOK
+  cases hpc : th.pc <;> rw [hpc] at hl <;> simp only [] <;> try (simp [Pc.lost] at hl; done)
+  case stat =>
+    cases hlk : s.objs.lookup th.oid with
+    | none => simp [Pc.lost, hlk]
+    | some o => by_cases ho : o.prot = true <;> simp [Pc.lost, ho]
+  case read =>
+    cases hlk : s.objs.lookup th.oid with
+    | none => simp [Pc.lost, hlk]
+    | some o => by_cases ho : H o.data = th.oid <;> simp [Pc.lost, ho]
+  case discard => simp [Pc.lost, lookup_remove]
+  case probe => simp [hp hpc, Pc.lost]
+  case write => cases th.chunks[th.k]? <;> simp [Pc.lost, hpc]
+  all_goals simp [Pc.lost, hpc]
+
+theorem solo_soloOK : ∀ (n : Nat) (c : S × Thread), SoloOK c → SoloOK (solo root H n c) := by
+  intro n
+  induction n with
+  | zero => intro c h; exact h
+  | succ n ih => intro c h; exact ih _ (step_soloOK root H c.1 c.2 h)
+
+
+/-- **C15 (re-running recovers), as a theorem of the step model.** Take *any* store in which protected objects
+    match their names — which is every store a crash can leave behind (`Crash.prefix_crash_safe`): whatever else
+    is under the object's name (nothing, an empty probe leftover, garbage, a complete unprotected copy), running
+    the add again to completion succeeds and leaves the object present, matching its name and write-protected —
+    privileged or not. -/
+theorem rerun_recovers (s : S) (th : Thread) (hpc : th.pc = Pc.stat) (hwf : H th.chunks.flatten = th.oid)
+    (hs : ∀ oid o, s.objs.lookup oid = some o → o.prot = true → H o.data = oid) (n : Nat) (hn : th.measure ≤ n) :
+    (solo root H n (s, th)).2.pc = Pc.done ∧
+    ∃ o, (solo root H n (s, th)).1.objs.lookup th.oid = some o ∧ H o.data = th.oid ∧ o.prot = true := by
+  have hterm := solo_terminal root H n s th hn
+  have hok := solo_soloOK root H n (s, th) ⟨by rw [hpc]; rfl, by rw [hpc]; intro h; cases h⟩
+  have hdone : (solo root H n (s, th)).2.pc = Pc.done := by
+    have hl := hok.1
+    cases hp : (solo root H n (s, th)).2.pc <;> rw [hp] at hterm hl <;>
+      first | rfl | (simp [Pc.terminal, Pc.lost] at hterm hl)
+  refine ⟨hdone, ?_⟩
+  have hgood : Good H (s, [th]) := by
+    apply good_init H s [th] ?_ ?_ ?_ hs
+    · intro j t h
+      cases j with
+      | zero => simp at h; rw [← h]; exact hpc
+      | succ j => simp at h
+    · intro j t h
+      cases j with
+      | zero => simp at h; rw [← h]; exact hwf
+      | succ j => simp at h
+    · intro i j ti tj hi hj _
+      cases i <;> cases j <;> simp at hi hj <;> rfl
+  have hrun := runSched_good root H (s, [th]) (List.replicate n 0) hgood
+  rw [solo_eq_runSched] at hrun
+  have hoid : (solo root H n (s, th)).2.oid = th.oid := by
+    have : ∀ (n : Nat) (c : S × Thread), (solo root H n c).2.oid = c.2.oid := by
+      intro n
+      induction n with
+      | zero => intro c; rfl
+      | succ n ih =>
+        intro c
+        show (solo root H n (c.2.step root H c.1)).2.oid = c.2.oid
+        rw [ih]; exact (step_oid root H c.1 c.2).1
+    exact this n (s, th)
+  have := final_correct H _ hrun th.oid
+    (by
+      intro j t h ho
+      cases j with
+      | zero => simp at h; rw [← h]; exact hdone
+      | succ j => simp at h)
+    ⟨0, _, rfl, hoid⟩
+  exact this
+
 /-! ### non-vacuity, and the schedule of the known finding -/
 
 /-- a toy content hash for the examples below -/
